@@ -189,6 +189,13 @@ Proof.
   match goal with |- bind ?m _ = _ -> _ => destruct m; cbn [bind]; try discriminate end. intros [= <-]. reflexivity.
 Qed.
 
+Lemma mapM_totalJ {A B} (f : A -> res B) l : (forall x, In x l -> exists y, f x = Ok y) -> exists ys, mapM f l = Ok ys.
+Proof.
+  induction l as [|x r IH]; intros H; [exists []; reflexivity|].
+  destruct (H x (or_introl eq_refl)) as (y & Ey). destruct IH as (ys & Eys); [intros z Hz; apply H; right; exact Hz|].
+  exists (y :: ys). cbn [mapM]. rewrite Ey. cbn [bind]. rewrite Eys. reflexivity.
+Qed.
+
 (* ------------------------------------------------------------------------------------------------ the setting *)
 
 Section Inline.
@@ -1458,6 +1465,61 @@ Proof.
 Qed.
 
 
+(* ------------------------------------------------------------------------------------------------ by-products *)
+
+(* the JSON traversal, too, changes nothing: the CAS is what a save leaves behind *)
+Lemma T_same : w_heap wT = h /\ w_next wT = c_next_id c.
+Proof.
+  pose proof ET' as H. unfold find_all_from, start in H.
+  destruct (enqueue (mkW h (c_next_id c) [] [] []) (map VRef (member_seeds c))) as [w0| |] eqn:E0; cbn [bind] in H; try discriminate.
+  destruct (start_Inv true s _ _ _ _ E0) as [I0 _].
+  assert (Hid : forall o, reach true s h (member_seeds c) o -> exists f i, hget h o = Some f /\ o_id f = Some i).
+  { intros o Hr. assert (Ho : Tf o) by (apply (find_all_exact _ _ _ _ _ ET'); split; [exact Hr|exact (no_nulls o)]).
+    destruct (Tf_obj o Ho) as (i & f & _ & Hg & Hi & _). exists f, i. split; assumption. }
+  destruct (run_same true h (c_next_id c) (member_seeds c) Hid _ _ _ _ I0 H) as [A B].
+  destruct (enqueue_spec _ _ _ E0) as (add & Hext & _). unfold extends in Hext. subst w0. cbn in A, B. split; assumption.
+Qed.
+
+(* the JSON view exists *)
+Lemma canon_fs_total o : J o -> exists f i cf, hget h o = Some f /\ o_id f = Some i /\ canon_fs s c f = Ok cf.
+Proof.
+  intros HJ. destruct (J_obj o HJ) as (f & i & Hg & Hi & Hok). exists f, i.
+  destruct (is_array_name (o_type f)) eqn:Ea.
+  - destruct (arr_canon o f HJ Hg Ea) as (l & lw & _ & _ & Hc). eexists. repeat split; eassumption.
+  - assert (Ho : Tf o).
+    { destruct HJ as [H|H]; [exact H|]. destruct (arr_obj o H) as (f' & _ & Hg' & _ & Hty & _). rewrite Hg in Hg'. inversion Hg'; subst f'.
+      rewrite Hty in Ea. discriminate Ea. }
+    destruct (okb_type f Hok) as (ti & Hf).
+    destruct (mapM_totalJ (fun fd => do v <- cv_json c (slot f (fd_name fd)) ;; Ok (fd_xname fd, v)) (ti_feats ti)) as (fv & Hfv).
+    { intros fd Hin. destruct (slot_cv fd _ (slot_kinds o f ti fd Ho Hg Hf Ea Hin)) as (w & Hw & _). rewrite Hw. eexists. reflexivity. }
+    exists (mkCfs (o_type f) (sort_feats fv)). split; [exact Hg|]. split; [exact Hi|]. unfold canon_fs. cbv zeta. rewrite Hf, Ea, Hfv. reflexivity.
+Qed.
+Lemma canon_json_exists : exists j, canon_json s c = Ok j.
+Proof.
+  unfold canon_json. rewrite ET. cbn [bind]. unfold canon_of.
+  change (fun o : oid => match hget h o with
+                         | Some f => match o_id f with Some i => do cf <- canon_fs s c f ;; Ok (i, cf) | None => Err EValue end
+                         | None => Err EAttribute end) with (canon_item s c).
+  fold objsJ. destruct (mapM_totalJ (canon_item s c) objsJ) as (fss & Hfss).
+  { intros o Ho. apply (proj1 (objsJ_J o)) in Ho. destruct (canon_fs_total o Ho) as (f & i & cf & Hg & Hi & Hc).
+    unfold canon_item. rewrite Hg, Hi, Hc. eexists. reflexivity. }
+  rewrite Hfss. cbn [bind]. destruct (mapM_totalJ (canon_sofa c) (c_views c)) as (sofas & Hs).
+  { intros v Hv. unfold canon_sofa. cbv zeta.
+    assert (Harr : exists arr, (match s_arr (v_sofa v) with None => Ok None | Some o => ref_id c (VRef o) end) = Ok arr).
+    { destruct (s_arr (v_sofa v)) as [o|] eqn:Eo; [|eexists; reflexivity].
+      assert (Hoa : In o (sofa_arrays c)) by (unfold sofa_arrays; apply in_flat_map; exists v; split; [exact Hv|rewrite Eo; left; reflexivity]).
+      destruct (arr_obj o Hoa) as (f & i & Hg & _). cbn [ref_id]. rewrite Hg. eexists. reflexivity. }
+    destruct Harr as (arr & Harr). rewrite Harr. cbn [bind].
+    destruct (mapM_totalJ (fun o => match hget h o with
+                                    | Some f => match o_id f with Some i => Ok i | None => Err EType end
+                                    | None => Err EAttribute end) (v_members v)) as (ms & Hms).
+    { intros o Ho. assert (Hs : In o (member_seeds c)) by (unfold member_seeds; apply in_flat_map; exists v; split; assumption).
+      destruct (Tf_obj o (T_members o Hs)) as (i & f & _ & Hg & Hi & _). rewrite Hg, Hi. eexists. reflexivity. }
+    unfold member_ids. rewrite Hms. cbn [bind]. eexists. reflexivity. }
+  rewrite Hs. cbn [bind]. eexists. reflexivity.
+Qed.
+
+
 End Inline.
 
 (* ------------------------------------------------------------------------------------------------ the theorem *)
@@ -1475,4 +1537,41 @@ Proof.
     rewrite find_all_fs_from. exact (find_all_ok false s c (member_seeds c) Hwf Hsl Hids). }
   destruct HF as (wF & EF).
   exact (inline_of_canon s c wT wF WF ET EF j EJ).
+Qed.
+
+(* totality of the JSON view and stability of the CAS under the JSON traversal, under the same premise *)
+Theorem canon_json_total s c : wf_convb s c = true -> exists j, canon_json s c = Ok j.
+Proof.
+  intros WF. pose proof WF as W. unfold wf_convb in W. andb_all.
+  assert (HT : exists wT, find_all_fs true s c = Ok wT).
+  { match goal with H : wf_jsonb s c = true |- _ => unfold wf_jsonb in H; destruct (find_all_fs true s c) as [wT| |]; try discriminate H end.
+    exists wT. reflexivity. }
+  destruct HT as (wT & ET). exact (canon_json_exists s c wT WF ET).
+Qed.
+Theorem json_traversal_same s c w : wf_convb s c = true -> find_all_fs true s c = Ok w -> cas_after c w = c.
+Proof.
+  intros WF ET. destruct (T_same s c w WF ET) as [A B]. unfold cas_after. rewrite A, B. destruct c. reflexivity.
+Qed.
+Theorem inline_outline_total s c : wf_convb s c = true ->
+  exists j x, canon_json s c = Ok j /\ Xmi.canon_xmi s c = Ok x /\ inline_of s j = Ok x.
+Proof.
+  intros WF. destruct (canon_json_total s c WF) as (j & EJ). pose proof (inline_outline s c j WF EJ) as H.
+  pose proof WF as W. unfold wf_convb in W. andb_all.
+  match goal with H : Xmi.wf_inb s c = true |- _ => pose proof (proj1 (XmiDocOk.wf_inb_parts s c H)) as Wc end.
+  assert (HX : exists x, Xmi.canon_xmi s c = Ok x).
+  { unfold Xmi.canon_xmi.
+    assert (HF : exists wF, find_all_fs false s c = Ok wF).
+    { destruct (XmiWf.wf_casb_parts s c Wc) as (Hpos & Hwf & Hsl & Hids & _). rewrite find_all_fs_from. exact (find_all_ok false s c (member_seeds c) Hwf Hsl Hids). }
+    destruct HF as (wF & EF).
+    assert (HT : exists wT, find_all_fs true s c = Ok wT).
+    { unfold canon_json in EJ. destruct (find_all_fs true s c) as [wT| |]; try discriminate. exists wT. reflexivity. }
+    destruct HT as (wT & ET). rewrite (written_eq s c wT wF WF ET EF j EJ). cbn [bind fst snd]. unfold Xmi.canon_of.
+    destruct (XmiDocOk.mapM_total (Xmi.canon_sofa c) (c_views c)) as (sofas & Hs).
+    { intros v Hv. destruct (sofa_in_cc s c wT ET j EJ v Hv) as (cs & _ & Hcs). exists cs. exact (canon_sofa_agree s c wT WF ET v cs Hv Hcs). }
+    rewrite Hs. cbn [bind].
+    destruct (XmiDocOk.mapM_total (Xmi.canon_fs s c) (sort_ids (allX c wF))) as (fss & Hf).
+    { intros [i o] Hin. apply (proj1 (sort_ids_In _ _)) in Hin. apply (proj1 (allX_spec s c wT wF WF ET EF i o)) in Hin. destruct Hin as [HXo Hi].
+      destruct (obj_agree s c wT wF WF ET EF j EJ o i HXo Hi) as (cf & cfX & _ & _ & Hc). exists (i, cfX). exact Hc. }
+    rewrite Hf. cbn [bind]. eexists. reflexivity. }
+  destruct HX as (x & EX). exists j, x. split; [exact EJ|]. split; [exact EX|]. rewrite H. exact EX.
 Qed.
